@@ -101,6 +101,25 @@ def programs(tier, mode):
             for b in A[:5]:
                 out.append(make_prog('s', [a, ('send', 0.25)], [0.25],
                                      second=(c2, [b, ('send', 0)], [0.25])))
+    # a routine stepped by hand (next()) from the main thread, and a clock
+    # driven one, whose body takes physical time before it sends: the
+    # timetag is the routine's logical time + L, not the send instant
+    if mode == 'rt':
+        for a in A:
+            for blk in (0.25, 1.0):
+                p = make_prog('s', [a], [])
+                body = p['routines']['r0']
+                p['routines']['r0'] = [['block', blk]] + body + \
+                    [['yieldv', 'x']]
+                p['actors']['main'] = [['sleep', 0.5], ['next', 'r0']]
+                p['handstep'] = 0.5
+                p['horizon'] = 4.0
+                out.append(p)
+                q = make_prog('s', [a], [])
+                q['routines']['r0'] = [['yield', 0.5], ['block', blk]] + \
+                    q['routines']['r0']
+                q['horizon'] = 5.0
+                out.append(q)
     # sends from outside routines at instants where no task is due
     for a in A:
         for dt in (0.125, 0.375):
@@ -120,6 +139,14 @@ def programs(tier, mode):
 def expected_sends(prog, mode):
     """List in program order per sender of dict(tag, kind, who, t (logical
     seconds of the send), L, L2, refused)."""
+    if prog.get('handstep') is not None:
+        sends = []
+        for st in prog['routines']['r0']:
+            if st[0] in ('send', 'sendm', 'sendb'):
+                sends.append(_send(st, 'r0', prog['handstep'], True))
+                if sends[-1]['refused']:
+                    break
+        return sends
     exp_t = c05.expected(prog)
     sends = []
     for rid, stmts in prog['routines'].items():
